@@ -138,9 +138,17 @@ def negotiate(run, rng, sup, order, cfg, sup_all):
             tok = authentication.AuthenticationToken('u@x', 'acc', 'cli')
             tok.profile = authentication.Profile('abcd', 'authname')
             kw['auth_token'] = tok
-        conn = pc.make_connection(server.port, rec,
-                                  allowed_versions=allowed_arg,
-                                  initial_version=default_arg, **kw)
+        try:
+            conn = pc.make_connection(server.port, rec,
+                                      allowed_versions=allowed_arg,
+                                      initial_version=default_arg, **kw)
+        except Exception as e:
+            run.violation('construct/raised-for-supported-versions',
+                          'constructing a Connection for supported versions '
+                          '(names, numbers or both mixed) raised',
+                          dict(w, allowed=repr(allowed_arg)[:120],
+                               initial=repr(default_arg), error=repr(e)))
+            return None
         conn.options.address = cfg['host']
         conn.vf_rng = rng
         conn.vf_short_reads = rng.random() < 0.5   # replies arrive in pieces
